@@ -20,6 +20,36 @@ TRUSTED = ['nom bits/bytes primitives', 'to_be_bytes']
 UNDECIDED = ['round-trip equality of arbitrary trees taken whole (its necessary conditions B1-B5 are decided)']
 ASSUMPTIONS = []
 
+def check_parse_uint(ctx, f, R):
+    """The shared unsigned reader (length octets, message IDs, result codes, page sizes): decided by exact evaluation of its body
+    on literal octet strings of every length 0..12 - distinct octets, high-bit octets, all-ones, and zero-padded forms whose value
+    still fits 64 bits - against the big-endian value.  Nothing of the library is executed: the typed HIR is interpreted."""
+    B = hirq.Body(f, f.body('lber::parse::parse_uint'))
+    ctx.analysed['bodies'].add(B.path)
+    pb = [b for b, d in B.defs.items() if d['kind'] == 'param']
+    vecs = []
+    for n in range(0, 9):
+        vecs += [bytes(range(1, n + 1)), bytes(0x80 + i for i in range(n)), b'\xff' * n, b'\x00' * n]
+        if n:
+            vecs += [b'\x00' * (n - 1) + b'\x81', b'\x7f' + b'\x00' * (n - 1)]
+    for pad in range(1, 5):
+        vecs += [b'\x00' * pad + bytes(range(1, 9)), b'\x00' * pad + b'\xff' * 8, b'\x00' * (pad + 7) + b'\x2a', b'\x00' * pad + b'\x01\x00']
+    wrong = []
+    for v in sorted(set(vecs), key=lambda x: (len(x), x)):
+        I = absx.Interp(f, B, unroll=16, combinators=True)
+        env = I.param_env()
+        env[pb[0]] = ('lit', v)
+        res = [o for o in I.run(env=env) if o.kind in ('val', 'ret', 'div')]
+        want = int.from_bytes(v, 'big')
+        got = None
+        if len(res) == 1 and res[0].kind != 'div' and res[0].val[0] == 'ctor' and res[0].val[1] == 'Ok' and res[0].val[2][0][0] == 'tuple':
+            got = res[0].val[2][0][1][1]
+        if got != ('lit', want):
+            wrong.append((v.hex() or '(empty)', absx.fmt(got)[:40] if got else [o.kind for o in res], want))
+    ctx.add(R + '.unsigned-reader-big-endian', 'parse_uint', loc(B.root), not wrong,
+            'evaluated exactly on %d literal octet strings (lengths 0..12): (octets, decoded, big-endian value) differ at %s' % (len(set(vecs)), wrong[:4]))
+
+
 def run(ctx):
     f = ctx.facts
     # ------------------------------------------------------------------ B1 identifier octet
@@ -162,6 +192,8 @@ def run(ctx):
                     'the length reader rejects its input on a path where none of its primitives (be_u8, take, parse_uint, conversion to usize) failed: a valid definite length is refused (%s)' %
                     ', '.join(('' if t else '!') + absx.fmt(a)[:50] for a, t in o.st.pc[-2:]))
         ctx.floor('B2', 'error paths of the length reader', n_rej, 3)
+
+    check_parse_uint(ctx, f, 'B6')
 
     # ------------------------------------------------------------------ B2m minimal long form (threshold partition)
     def len8(I, cal, args, node, st):
